@@ -135,7 +135,7 @@ example : injectiveOn (fun i => i + 4096) [7, 9, 7] = true := by decide
 theorem dump_alpha_counterexample_not_injective :
     canon (rename (fun _ => 1) [.ref 7, .ref 9]) ≠ canon [.ref 7, .ref 9] := by decide
 
-/-- canonical forms are fixed points: comparing canonical forms is comparing "up to renaming" -/
+/-- `canon` keeps every text chunk (it only touches ids) -/
 theorem canon_lits (d : List Item) : (canon d).filterMap (fun it => match it with | .lit s => some s | .ref _ => none) =
     d.filterMap (fun it => match it with | .lit s => some s | .ref _ => none) := by
   unfold canon
@@ -146,5 +146,79 @@ theorem canon_lits (d : List Item) : (canon d).filterMap (fun it => match it wit
     cases it with
     | lit s => simp [canonAux, ih]
     | ref i => simp [canonAux, ih]
+
+theorem injectiveOn_of (π : Nat → Nat) (ids : List Nat) (h : ∀ i j, i ∈ ids → j ∈ ids → π i = π j → i = j) :
+    injectiveOn π ids = true := by
+  apply List.all_eq_true.2
+  intro i hi
+  apply List.all_eq_true.2
+  intro j hj
+  by_cases e : π i = π j
+  · simp [h i j hi hj e]
+  · simp [e]
+
+/-- **`canon` is itself a renaming**: the canonical form is the dump with every id replaced by the position of its first
+    occurrence, and that replacement is injective on the ids of the dump — `canon` merges no two ids -/
+theorem canon_eq_rename (d : List Item) :
+    canon d = rename (firstIndex d) d ∧ injectiveOn (firstIndex d) (idsOf d) = true := by
+  refine ⟨canonAux_eq_rename d [], injectiveOn_of _ _ ?_⟩
+  intro i j hi hj e
+  exact indexIn_inj _ i j (finalSeen_ids d [] i hi) (finalSeen_ids d [] j hj) e
+
+/-- **`canon_complete`** (the converse of `dump_alpha`): two dumps with the same canonical form differ only by an injective
+    renaming of the ids.  Together: the comparison of canonical forms the check performs is exactly "equal up to renaming
+    of addresses" — not coarser (a canonicaliser that maps every id to 0 would satisfy `dump_alpha` but not this). -/
+theorem canon_complete (d1 d2 : List Item) (h : canon d1 = canon d2) :
+    ∃ ρ : Nat → Nat, injectiveOn ρ (idsOf d1) = true ∧ d2 = rename ρ d1 := by
+  rw [(canon_eq_rename d1).1, (canon_eq_rename d2).1] at h
+  obtain ⟨ρ, hρ⟩ : ∃ ρ : Nat → Nat, ρ = fun i => (finalSeen [] d2).getD (firstIndex d1 i) 0 := ⟨_, rfl⟩
+  have hd2 : d2 = rename ρ d1 := by
+    rw [hρ]
+    exact rename_eq_rename (firstIndex d1) (firstIndex d2) (finalSeen [] d2) d1 d2
+      (fun j hj => finalSeen_ids d2 [] j hj) (fun _ => rfl) h
+  refine ⟨ρ, ?_, hd2⟩
+  have hids2 : idsOf d2 = (idsOf d1).map ρ := by
+    have := congrArg idsOf hd2
+    rw [idsOf_rename] at this
+    exact this
+  have h1 := congrArg idsOf h
+  rw [idsOf_rename, idsOf_rename, hids2, List.map_map] at h1
+  apply injectiveOn_of
+  intro i j hi hj e
+  have hi' := List.map_inj_left.1 h1 i hi
+  have hj' := List.map_inj_left.1 h1 j hj
+  have : firstIndex d1 i = firstIndex d1 j := by
+    rw [hi', hj']
+    simp only [Function.comp, e]
+  exact indexIn_inj _ i j (finalSeen_ids d1 [] i hi) (finalSeen_ids d1 [] j hj) this
+
+/-- the comparison of the check decides exactly "equal up to an injective renaming of the ids" -/
+theorem canon_eq_iff (d1 d2 : List Item) :
+    canon d1 = canon d2 ↔ ∃ ρ : Nat → Nat, injectiveOn ρ (idsOf d1) = true ∧ d2 = rename ρ d1 := by
+  constructor
+  · exact canon_complete d1 d2
+  · rintro ⟨ρ, hinj, rfl⟩
+    exact (dump_alpha d1 ρ hinj).symm
+
+example : canon [.ref 7, .ref 9, .ref 7] ≠ canon [.ref 7, .ref 9, .ref 9] := by decide
+
+/-! ## the file list as the driver computes it -/
+
+/-- `runFiles` spelled out: every existing argument contributes the sorted list of its selected files -/
+theorem runFiles_eq (ign : Str → Filemode → Bool) (acc : Str → Bool × Lang) (late : Str → Bool)
+    (args : List (Str × Tree)) (hp : ∀ a, a ∈ args → a.1 ≠ []) :
+    runFiles ign acc late (args.map (fun a => (a.1, some a.2))) =
+      markupLast late (dedupPaths (args.flatMap (fun a => sortFiles (selectedFiles ign acc (correctedPath a.1) a.2)))) := by
+  have hl : ∀ l : List (Str × Tree), (∀ a, a ∈ l → a.1 ≠ []) →
+      (l.map (fun a => (a.1, some a.2))).flatMap (fun a => (addFiles ign acc a.1 a.2).2) =
+      l.flatMap (fun a => sortFiles (selectedFiles ign acc (correctedPath a.1) a.2)) := by
+    intro l
+    induction l with
+    | nil => intro _; rfl
+    | cons a r ih =>
+      intro h
+      simp only [List.map_cons, List.flatMap_cons]
+      rw [ih (fun b hb => h b (by simp [hb])), addFiles_eq ign acc a.1 a.2 (h a (by simp))]
+  simp only [runFiles, hl args hp]
 
 end Cppcheck.Determinism
